@@ -1,4 +1,5 @@
-"""C01 facts: the bodies of Host::CalculateState, Host::IsStateOK, Service::IsStateOK."""
+"""C01 facts: the bodies of Host::CalculateState, Host::IsStateOK, Service::IsStateOK; the lock structure of
+Checkable::ProcessCheckResult (which reads and writes of the state fields the ObjectLock covers)."""
 import re
 
 def fn_body(src, sig_re):
@@ -59,4 +60,88 @@ def run(rd, emit, log, enum_values, ti_default):
     m = re.match(r'\s*return\s+state\s*==\s*(\w+)\s*;\s*$', b or '')
     if not m: log.append('C01: Service::IsStateOK not recognised')
     body += 'Definition f_service_ok_state : option Z := %s.\n' % ('Some f_' + m.group(1) if m else 'None')
+    body += pcr_lock_facts(rd('lib/icinga/checkable-check.cpp'), log)
     emit('Facts_c01.v', body)
+
+
+# ---- lock structure of Checkable::ProcessCheckResult (concurrent results, coq/Ck/CkConc.v) ----
+PCR_READS = ('GetLastCheckResult', 'GetStateRaw', 'GetStateType', 'GetCheckAttempt', 'GetLastStateRaw', 'GetLastHardStateRaw',
+             'GetLastHardStatesRaw', 'GetLastSoftStatesRaw')
+PCR_WRITES = ('SetStateRaw', 'SetStateType', 'SetCheckAttempt', 'SetLastHardStateRaw', 'SetLastHardStatesRaw', 'SetLastSoftStatesRaw')
+
+
+def strip_comments_keep_offsets(src):
+    """comments and string literals blanked out (same length), so that positions stay comparable"""
+    def blank(m):
+        return re.sub(r'[^\n]', ' ', m.group(0))
+    return re.sub(r'/\*.*?\*/|//[^\n]*|"(?:\\.|[^"\\\n])*"', blank, src, flags=re.S)
+
+
+def depth0_positions(body, regex):
+    """start offsets of the matches of regex that sit at brace depth 0 of body (statements of the function itself)"""
+    depth = []
+    d = 0
+    for ch in body:
+        depth.append(d)
+        if ch == '{': d += 1
+        elif ch == '}': d -= 1
+    return [(m.start(), m) for m in re.finditer(regex, body) if depth[m.start()] == 0]
+
+
+def pcr_lock_facts(src, log):
+    """f_pcr_lock_covers_rmw: the function-level `ObjectLock x(this);' is taken before the first read of the previous
+         state and not released before the last write of the state fields (Some true) / a read precedes it or a write
+         follows its first release (Some false) / shape not recognised (None, compared only).
+       f_pcr_cr_in_rmw_section: SetLastCheckResult(cr) happens before that first release (Some true) or in a later
+         critical section (Some false).
+       f_pcr_event_type_reread: the soft-event test after the critical sections reads GetStateType() again (Some true) or
+         uses no getter (Some false)."""
+    out = {'f_pcr_lock_covers_rmw': None, 'f_pcr_cr_in_rmw_section': None, 'f_pcr_event_type_reread': None}
+    found = 'not found'
+    clean = strip_comments_keep_offsets(src)
+    m = re.search(r'Checkable::ProcessingResult\s+Checkable::ProcessCheckResult\s*\([^)]*\)\s*\{', clean)
+    if m:
+        i = m.end(); d = 1; j = i
+        while j < len(clean) and d:
+            if clean[j] == '{': d += 1
+            elif clean[j] == '}': d -= 1
+            j += 1
+        body = clean[i:j - 1]
+        locks = depth0_positions(body, r'\bObjectLock\s+(\w+)\s*\(\s*this\s*\)\s*;')
+        reads = [mm.start() for mm in re.finditer(r'\b(?:this->)?(%s)\s*\(\s*\)' % '|'.join(PCR_READS), body)]
+        writes = [mm.start() for mm in re.finditer(r'\b(?:this->)?(%s)\s*\(' % '|'.join(PCR_WRITES), body)]
+        if len(locks) == 1 and reads and writes:
+            lpos, lm = locks[0]
+            name = lm.group(1)
+            unl = [mm.start() for mm in re.finditer(r'\b%s\s*\.\s*Unlock\s*\(\s*\)' % re.escape(name), body) if mm.start() > lpos]
+            first_unlock = min(unl) if unl else len(body)
+            # reads of the previous state that feed the transition are those up to the last state write
+            first_read, last_write = min(reads), max(writes)
+            covers = lpos < first_read and last_write < first_unlock
+            out['f_pcr_lock_covers_rmw'] = covers
+            line = lambda pos: src[:m.end() + pos].count('\n') + 1
+            found = 'lock line %d, first read of the previous state line %d, last state write line %d, first release %s' % (
+                line(lpos), line(first_read), line(last_write), ('line %d' % line(first_unlock)) if unl else 'end of scope')
+            crs = [mm.start() for mm in re.finditer(r'\bSetLastCheckResult\s*\(', body)]
+            if crs:
+                out['f_pcr_cr_in_rmw_section'] = lpos < min(crs) and max(crs) < first_unlock
+                found += ', SetLastCheckResult line %d' % line(min(crs))
+            # the soft-event branch: `else if (<cond>) { OnStateChange(this, cr, StateTypeSoft, origin);'
+            em = re.search(r'else\s+if\s*\(([^{};]*)\)\s*\{\s*OnStateChange\s*\(\s*this\s*,\s*\w+\s*,\s*StateTypeSoft\b', body)
+            if em and em.start() > first_unlock:
+                cond = em.group(1)
+                if re.search(r'\bGetStateType\s*\(\s*\)', cond):
+                    out['f_pcr_event_type_reread'] = True
+                elif not re.search(r'\bGet\w+\s*\(', cond):
+                    out['f_pcr_event_type_reread'] = False
+                found += ', soft-event test "%s"' % ' '.join(cond.split())
+    for k, v in out.items():
+        if v is None:
+            log.append('C01: %s not recognised (compared only)' % k)
+    if out['f_pcr_lock_covers_rmw'] is False:
+        log.append('C01: ProcessCheckResult: the ObjectLock does NOT cover the read-modify-write of the state fields (%s)' % found)
+    txt = '\n(* lock structure of Checkable::ProcessCheckResult: %s *)\n' % found.replace('*)', '* )').replace('(*', '( *')
+    for k in ('f_pcr_lock_covers_rmw', 'f_pcr_cr_in_rmw_section', 'f_pcr_event_type_reread'):
+        v = out[k]
+        txt += 'Definition %s : option bool := %s.\n' % (k, 'None' if v is None else ('Some true' if v else 'Some false'))
+    return txt
